@@ -340,6 +340,10 @@ class AdjointVisitor(PSyIRVisitor):
             fortran_writer = FortranWriter()
             hi_str = fortran_writer(node.stop_expr)
             lo_str = fortran_writer(node.start_expr)
+            if not isinstance(node.start_expr, (Reference, Literal, Call)):
+                # The lower bound is subtracted from the upper bound so an
+                # expression must keep its own precedence.
+                lo_str = f"({lo_str})"
             step_str = fortran_writer(node.step_expr)
             # TODO: use language independent PSyIR, see issue #1345
             ptree = Fortran2003.Intrinsic_Function_Reference(
